@@ -45,6 +45,12 @@ package cache
 //@ ghost local $regs int
 
 //@ guarded_by httpCache.mu: status, chanList, response, createdAt, expiredAt
+// C20: a response is written only by the goroutine that created it, and only until it is
+// published in an entry; from then on every goroutine sees it and nobody may write it
+//@ confined HTTPResponse
+//@ on write httpCache.response(x, o, n):
+//@   assert [published-by-owner] n == nil || $owns[n] == 1
+//@   update $owns[n] := (n == nil) ? $owns[n] : 0
 //@ immutable httpCache: key, store, mu
 
 //@ pred invRange(hc *httpCache) := StatusUnknown <= hc.status && hc.status <= StatusHit
@@ -270,6 +276,7 @@ package cache
 //@ func (resp *HTTPResponse) FromBytes(data []byte) (err error)
 //@   boundedalloc
 //@   requires [recv] resp != nil
+//@   requires [owned] $owns[resp] == 1
 //@   modifies resp.CompressSrv, resp.CompressMinLength, resp.CompressContentTypeFilter, resp.Header, resp.StatusCode, resp.GzipBody, resp.BrBody, resp.RawBody, $hdr
 //@   nopanic
 //@   ensures [empty]  len(data) == 0 ==> err == nil
@@ -407,8 +414,10 @@ package cache
 //@   requires [tok] $tok[hc] == 1
 //@   requires [nodebt] $owed == $sent_total
 //@   requires [resp] resp != nil
+//@   requires [owned] $owns[resp] == 1
+//@   ensures  [published] $owns[resp] == 0
 //@   requires [ttl] ttl > 0
-//@   modifies hc.status, hc.chanList, hc.response, hc.createdAt, hc.expiredAt, $tok[hc], $clock, $regs, $owed, $expbase[hc], $sent, $sent_total, $enc, cells(chan struct{}), resp.CompressSrv, resp.GzipBody, resp.BrBody, resp.RawBody
+//@   modifies hc.status, hc.chanList, hc.response, hc.createdAt, hc.expiredAt, $tok[hc], $clock, $regs, $owed, $expbase[hc], $sent, $sent_total, $enc, cells(chan struct{}), resp.CompressSrv, resp.GzipBody, resp.BrBody, resp.RawBody, $owns[resp]
 //@   nopanic
 //@   ensures  [consumed] $tok[hc] == 0
 //@   ensures  [nodebt]   $owed == $sent_total
@@ -581,6 +590,7 @@ package cache
 
 //@ func (resp *HTTPResponse) Compress() (err error)
 //@   requires [recv] resp != nil
+//@   requires [owned] $owns[resp] == 1
 //@   modifies resp.GzipBody, resp.BrBody, resp.RawBody, $enc
 //@   nopanic
 //@   ensures [noop]  !old(compressible(resp)) ==> err == nil && resp.GzipBody == old(resp.GzipBody) && resp.BrBody == old(resp.BrBody) && resp.RawBody == old(resp.RawBody) && $enc == old($enc)
@@ -687,6 +697,7 @@ package cache
 //@   modifies $hdr
 //@   nopanic
 //@   ensures [ok]       err == nil ==> resp != nil && fresh(resp) && resp.StatusCode == statusCode
+//@   ensures [owned]    err == nil ==> $owns[resp] == 1
 //@   ensures [known]    knownEncoding(encoding) && (encoding == "gzip" || encoding == "br" || encoding == "") ==> err == nil
 //@   ensures [unknown]  !knownEncoding(encoding) ==> err != nil
 //@   ensures [gzip]     encoding == "gzip" ==> resp.GzipBody == data && len(resp.BrBody) == 0 && len(resp.RawBody) == 0
